@@ -190,7 +190,11 @@ theorem step_sim2 (c : Ctx) (prog : List Insn) (nS pc ix : Nat) (s : State) (σ 
         rw [rep_get h slot hlt]
         cases hv : σ.slots[slot]? with
         | none => simp [hv] at hs
-        | some v => simp only [hv] at hs ⊢; cases hs; exact .cont _ _ s σ h
+        | some v =>
+          simp only [hv] at hs ⊢
+          split at hs
+          · cases hs; exact .cont _ _ s σ h
+          · cases hs
       · cases hs
     | repeatGr lo hi next rep =>
       simp only at hs ⊢
